@@ -37,6 +37,8 @@ def shards(tier, seed):
     for i in range(nsw):
         out.append({"kind": "sweep", "part": i, "parts": nsw, "ks": [1, 2] if tier == "quick" else [1, 2, 3, 5]})
     out.append({"kind": "multi", "runs": 12 if tier == "quick" else 1500})
+    for sp in ("popen", "via", "socket"):
+        out.append({"kind": "real_ends", "spec": sp, "runs": 2 if tier == "quick" else 40})
     return out
 
 
@@ -330,9 +332,94 @@ def run_loss_history(res: Result, h, label, pre_setup=None):
         sp.shutdown(3)
 
 
+REAL_BODY = """
+import os, time
+subs = [channel.gateway.newchannel() for _ in range(2)]
+channel.send((os.getpid(), subs))
+for i in range(5):
+    channel.send(("item", i))
+    for k, s in enumerate(subs):
+        s.send((k, i))
+time.sleep(600)
+"""
+
+
+def run_real_ends(spec):
+    """real workers (direct, proxied, socket) whose connection ends while callbacks and MultiChannel queues are listening:
+    the process is killed, the gateway is exit()ed, the group is terminated"""
+    import os
+    import signal
+
+    import execnet
+    from vlib import pairs
+
+    res = Result()
+    rng = core.rng_for("C10r", spec["tier"], spec["seed"], spec["spec"])
+    for run in range(spec["runs"]):
+        for ending in ("kill", "exit", "terminate", "kill_master"):
+            if ending == "kill_master" and spec["spec"] == "popen":
+                continue
+            group = execnet.Group()
+            label = f"real {spec['spec']} ended by {ending}"
+            try:
+                if spec["spec"] == "popen":
+                    gw = group.makegateway("popen")
+                else:
+                    group.makegateway("popen//id=m")
+                    gw = group.makegateway("socket//installvia=m" if spec["spec"] == "socket" else "popen//via=m")
+                E = ENDMARKERS[rng.randrange(len(ENDMARKERS))]
+                ch = gw.remote_exec(REAL_BODY)
+                pid, subs = ch.receive(30)
+                got: list = []
+                ch.setcallback(got.append, endmarker=E)
+                mc = execnet.MultiChannel(subs)
+                q = mc.make_receive_queue(endmarker=E)
+                pairs.wait_until(lambda: len(got) >= 5, 20.0)
+                if ending == "kill":
+                    os.kill(pid, signal.SIGKILL)
+                elif ending == "kill_master":
+                    os.kill(group["m"].remote_exec("import os\nchannel.send(os.getpid())").receive(20), signal.SIGKILL)
+                elif ending == "exit":
+                    gw.exit()
+                else:
+                    group.terminate(2.0)
+                isend = lambda g: g is E or (not isinstance(g, tuple) and type(g) is type(E) and g == E) or (isinstance(E, tuple) and g == E)
+                pairs.wait_until(lambda: any(isend(g) for g in got), 20.0)
+                want = [("item", i) for i in range(5)]
+                items = [g for g in got if not isend(g)]
+                ends = [g for g in got if isend(g)]
+                res.count("histories")
+                res.count("real_end_histories")
+                res.case(core.h64("real_ends", spec["spec"], ending, run))
+                if items != want or len(ends) != 1 or not isend(got[-1]):
+                    res.violation(f"endmarker-never-delivered:real-{spec['spec']}:{ending}" if not ends else f"callback-log-wrong:real-{spec['spec']}:{ending}",
+                                  f"{label}: callback saw {short(got, 200)}")
+                qgot = []
+                t0 = time.monotonic()
+                while time.monotonic() - t0 < 20 and sum(1 for c_, o in qgot if isend(o)) < 2:
+                    try:
+                        qgot.append(q.get(timeout=0.2))
+                    except Exception:  # noqa
+                        pass
+                for k, sub in enumerate(subs):
+                    mine = [o for c_, o in qgot if c_ is sub]
+                    if [o for o in mine if not isend(o)] != [(k, i) for i in range(5)] or sum(1 for o in mine if isend(o)) != 1 or not isend(mine[-1]):
+                        res.violation(f"multichannel-queue-wrong:real-{spec['spec']}:{ending}", f"{label}: member {k} saw {short(mine, 200)}")
+            except BaseException as e:  # noqa
+                res.violation(f"real-ends-raised:{spec['spec']}:{type(e).__name__}", f"{label}: {str(e)[-300:]}")
+            finally:
+                try:
+                    group.terminate(2.0)
+                except BaseException:  # noqa
+                    pass
+    return res
+
+
 def run_shard(spec):
     if spec["kind"] == "multi":
         return run_multi(spec)
+    if spec["kind"] == "real_ends":
+        return run_real_ends(spec)
     from execnet import gateway_base as gb
     from vlib import chanlab
     from vlib import imodel
